@@ -3,7 +3,7 @@ use crate::{
         LmsTreeIdentifier, D_TOPSEED, HSS_COMPRESSED_USED_LEAFS_SIZE, ILEN, MAX_ALLOWED_HSS_LEVELS,
         MAX_HASH_SIZE, MAX_SEED_LEN, REF_IMPL_MAX_ALLOWED_HSS_LEVELS,
         REF_IMPL_MAX_PRIVATE_KEY_SIZE, SEED_CHILD_SEED, SEED_SIGNATURE_RANDOMIZER_SEED, TOPSEED_D,
-        TOPSEED_LEN, TOPSEED_SEED, TOPSEED_WHICH,
+        TOPSEED_LEN, TOPSEED_SEED, TOPSEED_WHICH, TREE_HEIGHTS, WINTERNITZ_PARAMETERS,
     },
     hasher::HashChain,
     hss::{definitions::HssPrivateKey, seed_derive::SeedDerive},
@@ -218,6 +218,14 @@ pub fn generate_signature_randomizer<H: HashChain>(
 
 const PARAM_SET_END: u8 = 0xff; // Marker for end of parameter set
 
+/// The arrays of this crate are sized by `HBS_LMS_TREE_HEIGHTS` (max. height of each level) and
+/// `HBS_LMS_WINTERNITZ_PARAMETERS` (min. Winternitz parameter of each level).
+fn is_within_build_limits(level: usize, tree_height: u8, winternitz: u8) -> bool {
+    level < MAX_ALLOWED_HSS_LEVELS
+        && tree_height as usize <= TREE_HEIGHTS[level]
+        && winternitz as usize >= WINTERNITZ_PARAMETERS[level]
+}
+
 #[derive(Clone, PartialEq, Eq, Zeroize, ZeroizeOnDrop)]
 pub struct CompressedParameterSet([u8; REF_IMPL_MAX_ALLOWED_HSS_LEVELS]); // Same layout for every build configuration
 
@@ -249,6 +257,10 @@ impl CompressedParameterSet {
         for (i, parameter) in parameters.iter().enumerate() {
             let lmots = parameter.get_lmots_parameter();
             let lms = parameter.get_lms_parameter();
+
+            if !is_within_build_limits(i, lms.get_tree_height(), lmots.get_winternitz()) {
+                return Err(());
+            }
 
             let lmots_type = lmots.get_type_id() as u8;
             let lms_type = lms.get_type_id() as u8;
@@ -287,7 +299,16 @@ impl CompressedParameterSet {
                 return Err(());
             }
 
-            result.extend_from_slice(&[HssParameter::new(lmots, lms)]);
+            let hss_parameter = HssParameter::<H>::new(lmots, lms);
+            if !is_within_build_limits(
+                level,
+                hss_parameter.get_lms_parameter().get_tree_height(),
+                hss_parameter.get_lmots_parameter().get_winternitz(),
+            ) {
+                return Err(());
+            }
+
+            result.extend_from_slice(&[hss_parameter]);
         }
 
         if result.is_empty() {
